@@ -992,6 +992,7 @@ type AbacoBuffersType struct {
 	totalBytes     int
 	droppedBytes   int
 	droppedFrames  int
+	extTriggers    []int64 // external triggers (subframe counts) from the trigger packets read so far
 }
 
 func (as *AbacoSource) readerMainLoop() {
@@ -1113,6 +1114,7 @@ awaitmoredata:
 				totalBytes:     bytesProcessed,
 				droppedBytes:   droppedBytes,
 				droppedFrames:  droppedFrames,
+				extTriggers:    as.extractExternalTriggers(),
 			}
 			// The frame counter belongs to this goroutine (distributePackets reads it for the frame timing):
 			// each buffer carries its first frame number to the block assembly.
@@ -1166,6 +1168,8 @@ func (as *AbacoSource) getNextBlock() chan *dataBlock {
 	return as.nextBlock
 }
 
+// extractExternalTriggers converts the queued external-trigger packets to subframe counts. It belongs to the
+// reader goroutine, like the packet queue and the groups' frame-timing data that it uses.
 func (as *AbacoSource) extractExternalTriggers() []int64 {
 	externalTriggers := make([]int64, 0)
 	for _, p := range as.eTrigPackets {
@@ -1214,8 +1218,8 @@ func (as *AbacoSource) distributeData(buffersMsg AbacoBuffersType) *dataBlock {
 	nchan := len(datacopies)
 	block.segments = make([]DataSegment, nchan)
 
-	// Here we find external triggers from the queue of relevant packets
-	externalTriggers := as.extractExternalTriggers()
+	// The external triggers were extracted from the queue of relevant packets by the reader goroutine
+	externalTriggers := buffersMsg.extTriggers
 
 	// TODO: we should loop over devices here, matching devices to channels.
 	var wg sync.WaitGroup
